@@ -49,6 +49,9 @@ func TestECBBOT(t *testing.T) {
 		if xi*l > 256 && !vlib.Thorough() {
 			l = 256 / xi
 		}
+		if g.name != "bls12381g1" {
+			xi, l = bigBaseOTSize(t, xi, l)
+		}
 		choices, cc := genChoices(t, "choices", xi)
 		seed := rapid.Uint64().Draw(t, "seed")
 		run := g.ecbbot(t, otParams{xi: xi, l: l, choices: choices, seed: seed})
@@ -80,6 +83,7 @@ func TestVSOT(t *testing.T) {
 		if xi*l > 256 && !vlib.Thorough() {
 			l = 256 / xi
 		}
+		xi, l = bigBaseOTSize(t, xi, l)
 		choices, cc := genChoices(t, "choices", xi)
 		seed := rapid.Uint64().Draw(t, "seed")
 		run := c.vsot(t, otParams{xi: xi, l: l, choices: choices, seed: seed, hash: h})
@@ -204,11 +208,31 @@ func gcd(a, b int) int {
 	return a
 }
 
+// bigBaseOTSize: one case in 16 replaces the drawn (xi, L) of a base OT by a size outside the
+// usual quick-tier box (xi <= 128, L <= 4, xi*L <= 256). ot.NewDefaultSuite accepts every
+// xi, L > 0 (the harness needs xi to be a multiple of 8: choices are packed bytes); 256 / 264
+// instances exceed one byte of instance index, L = 5..33 exceeds the 1..4 blocks. xi*L <= 528
+// keeps such a case at about twice the cost of the largest usual one.
+func bigBaseOTSize(t *rapid.T, xi, l int) (int, int) {
+	if rapid.IntRange(1, 16).Draw(t, "bigBaseOT") != 16 {
+		return xi, l
+	}
+	s := rapid.SampledFrom([][2]int{{256, 1}, {256, 2}, {264, 1}, {264, 2}, {136, 3}, {8, 5}, {8, 16}, {8, 33}, {16, 17}, {24, 9}}).Draw(t, "bigXiL")
+	return s[0], s[1]
+}
+
 // genExtensionSize draws (xi, L) with xi a multiple of 8 and xi*L a multiple of 128 (what
 // softspoken.NewSuite allows).
 func genExtensionSize(t *rapid.T, maxEta int) (int, int) {
 	ks := []int{1, 1, 2, 2, 3, 4, 8, 16, 16, 16, 17, 32, 64}
 	xi := 8 * rapid.SampledFrom(ks).Draw(t, "xiOver8")
+	if rapid.IntRange(1, 16).Draw(t, "bigExtension") == 16 {
+		// softspoken.NewSuite only asks for xi % 8 == 0 and xi*L % 128 == 0, there is no upper limit;
+		// the extension is symmetric-key work (128 x xi*L bits), so 1024 / 1032 / 2048 instances and
+		// xi*L up to 16512 bits stay cheap. The usual draw stops at xi = 512, xi*L = 4096.
+		xi = 8 * rapid.SampledFrom([]int{128, 129, 256}).Draw(t, "xiOver8Big")
+		maxEta = max(maxEta, 16512)
+	}
 	l0 := 128 / gcd(xi, 128)
 	m := rapid.IntRange(1, 3).Draw(t, "Lmult")
 	for m > 1 && xi*l0*m > maxEta {
